@@ -88,3 +88,28 @@ Proof.
     + cbn [app andb]. exact IH.
     + cbn [app andb]. split; discriminate.
 Qed.
+
+(* when every literal site of the table goes through repr() and every name site pastes an identifier,
+   the only strings a token list can get wrong are its NAMES *)
+Lemma site_forall_disc tbl q sites site :
+  forallb (fun x => quoting_eqb (site_disc tbl x) q) sites = true ->
+  str_in site sites = true -> site_disc tbl site = q.
+Proof.
+  intros H Hin. unfold str_in in Hin. apply existsb_exists in Hin as [x [Hx E]].
+  apply pystr_eqb_spec in E. subst x. rewrite forallb_forall in H. specialize (H site Hx).
+  destruct (site_disc tbl site), q; try discriminate; reflexivity.
+Qed.
+
+Theorem names_only_sites_ok kw tbl lits names toks :
+  forallb (fun x => quoting_eqb (site_disc tbl x) Repr) lits = true ->
+  forallb (fun x => quoting_eqb (site_disc tbl x) Identifier) names = true ->
+  names_only kw lits names toks = true -> all_sites_ok kw tbl toks = true.
+Proof.
+  intros Hl Hn. unfold names_only, all_sites_ok. induction toks as [|t toks IH]; [reflexivity|].
+  cbn [forallb]. intro H. apply andb_true_iff in H as [Ht H]. rewrite (IH H), andb_true_r.
+  destruct t as [x|site s]; [reflexivity|]. cbn [tok_ok].
+  apply andb_true_iff in Ht as [Hv Ht]. rewrite Hv. cbn [andb].
+  destruct (str_in site names) eqn:E.
+  - rewrite (site_forall_disc tbl Identifier names site Hn E). exact Ht.
+  - rewrite (site_forall_disc tbl Repr lits site Hl Ht). reflexivity.
+Qed.
